@@ -21,6 +21,7 @@ import (
 	"io"
 	"net/http"
 	"net/http/httptest"
+	"regexp"
 	"strings"
 	"time"
 
@@ -704,6 +705,200 @@ func e2() {
 	}
 }
 
+// ---------------------------------------------------------------- E3 overlapping streams stay separate
+//
+// One translator instance serves every request. Two streams are translated at the same time by two
+// goroutines whose readers hand out one backend line per turn; the controller gives the turn to one
+// stream at a time and waits until that stream asks for its next line (or has finished), so a run is a
+// deterministic sequence of "consume one line" blocks, and every order of those blocks is enumerated.
+// Oracle: each stream's output equals, byte for byte (message id aside), its output when translated alone.
+
+type turnReader struct {
+	lines [][]byte
+	turn  chan struct{} // controller -> reader: deliver the next line
+	ask   chan struct{} // reader -> controller: I am waiting for my next turn
+}
+
+func (t *turnReader) Read(p []byte) (int, error) {
+	t.ask <- struct{}{}
+	<-t.turn
+	if len(t.lines) == 0 {
+		return 0, io.EOF
+	}
+	n := copy(p, t.lines[0])
+	if n < len(t.lines[0]) {
+		t.lines[0] = t.lines[0][n:]
+	} else {
+		t.lines = t.lines[1:]
+	}
+	return n, nil
+}
+
+var msgID = regexp.MustCompile(`msg_01[A-Za-z0-9]+`)
+
+func e3() {
+	tc := func(i int, id, name string) ev { return ev{kind: "start", tool: i, id: id, name: name} }
+	catalogue := [][]ev{
+		{{kind: "text", text: "alpha "}, {kind: "text", text: "beta"}, {kind: "finish", fr: "stop"}, {kind: "usage"}, {kind: "done"}},
+		{{kind: "text", text: "é🌍"}, tc(0, "call_A", "lookup"), {kind: "args", tool: 0, text: `{"q":`}, {kind: "args", tool: 0, text: `"x"}`}, {kind: "finish", fr: "tool_calls"}, {kind: "done"}},
+		{{kind: "start", tool: 0, id: "call_B", name: "sum", text: `{"a":1`}, {kind: "args", tool: 0, text: `,"b":2}`}, tc(1, "call_C", "mul"), {kind: "args", tool: 1, text: `{}`}, {kind: "finish", fr: "tool_calls"}, {kind: "usage"}},
+		{{kind: "comment"}, {kind: "malformed"}, {kind: "text", text: "after noise"}, {kind: "finish", fr: "length"}},
+		{{kind: "finish", fr: "stop"}},
+	}
+	if report.Thorough() {
+		catalogue = append(catalogue, []ev{{kind: "text", text: "1"}, {kind: "text", text: "2"}, {kind: "text", text: "3"}, tc(0, "call_D", "f"), {kind: "args", tool: 0, text: `{"k":[1,`}, {kind: "args", tool: 0, text: `2]}`}, {kind: "finish", fr: "tool_calls"}, {kind: "usage"}, {kind: "done"}})
+	}
+	lines := func(seq []ev) [][]byte {
+		var l [][]byte
+		for _, e := range seq {
+			l = append(l, []byte(sseLine(e)))
+		}
+		return l
+	}
+	norm := func(b []byte) string { return msgID.ReplaceAllString(string(b), "msg_X") }
+	alone := make([]string, len(catalogue))
+	for i, seq := range catalogue {
+		in := ""
+		for _, e := range seq {
+			in += sseLine(e)
+		}
+		out, _, p := runStream(in, 0)
+		if p != "" {
+			return // E1/E2 report crashes of single streams
+		}
+		alone[i] = norm(out)
+	}
+	type result struct {
+		out      []byte
+		panicked string
+	}
+	// one run of a fixed interleaving: order[i] in {0,1} names the stream that gets turn i
+	runOrder := func(a, b int, order []int) ([2]result, string) {
+		var rs [2]result
+		rd := [2]*turnReader{{lines: lines(catalogue[a]), turn: make(chan struct{}), ask: make(chan struct{}, 1)}, {lines: lines(catalogue[b]), turn: make(chan struct{}), ask: make(chan struct{}, 1)}}
+		fin := [2]chan struct{}{make(chan struct{}), make(chan struct{})}
+		waiting := [2]bool{}
+		finished := [2]bool{}
+		settle := func(k int) string {
+			select {
+			case <-rd[k].ask:
+				waiting[k] = true
+			case <-fin[k]:
+				finished[k] = true
+			case <-time.After(10 * time.Second):
+				return fmt.Sprintf("stream %d neither asked for its next line nor finished within 10 s", k)
+			}
+			return ""
+		}
+		// the streams are started one after the other, each running up to its first request for a line, so that
+		// every block of the run (including the start-up code) executes alone
+		for k := 0; k < 2; k++ {
+			k := k
+			go func() {
+				defer close(fin[k])
+				defer func() {
+					if r := recover(); r != nil {
+						rs[k].panicked = fmt.Sprint(r)
+					}
+				}()
+				rec := httptest.NewRecorder()
+				req, _ := http.NewRequest("POST", "http://x/olla/anthropic/v1/messages", nil)
+				_ = tr.TransformStreamingResponse(context.Background(), rd[k], rec, req)
+				rs[k].out = rec.Body.Bytes()
+			}()
+			if p := settle(k); p != "" {
+				return rs, p
+			}
+		}
+		for _, k := range order {
+			if finished[k] || !waiting[k] {
+				continue
+			}
+			waiting[k] = false
+			rd[k].turn <- struct{}{}
+			if p := settle(k); p != "" {
+				return rs, p
+			}
+		}
+		// drain: whatever is left runs to completion in stream order
+		for k := 0; k < 2; k++ {
+			for !finished[k] {
+				if waiting[k] {
+					waiting[k] = false
+					rd[k].turn <- struct{}{}
+				}
+				if p := settle(k); p != "" {
+					return rs, p
+				}
+			}
+		}
+		return rs, ""
+	}
+	idx := 1 << 27
+	for a := range catalogue {
+		for b := a; b < len(catalogue); b++ {
+			idx++
+			if !report.Mine(idx) {
+				continue
+			}
+			if report.Expired() {
+				res.NotExhaustive("E3: time budget")
+				return
+			}
+			// reads per stream: one per line plus the EOF read (a bufio-style reader may ask fewer times; extra turns are skipped)
+			na, nb := len(catalogue[a])+1, len(catalogue[b])+1
+			var order []int
+			var rec func(ca, cb int) bool
+			rec = func(ca, cb int) bool {
+				if ca == na && cb == nb {
+					rs, p := runOrder(a, b, order)
+					res.Add("traces_validated_against_impl", 1)
+					res.Add("transitions", int64(len(order)))
+					rp := map[string]any{"engine": "ops", "part": "E3", "streams": []string{seqStr(catalogue[a]), seqStr(catalogue[b])}, "order": append([]int{}, order...)}
+					if p != "" {
+						violate("overlapping-streams-hang", map[string]any{"part": "E3"}, fmt.Sprintf("streams [%s] || [%s], line order %v: %s", seqStr(catalogue[a]), seqStr(catalogue[b]), order, p), rp)
+						return false
+					}
+					for k, which := range []int{a, b} {
+						if rs[k].panicked != "" {
+							violate("overlapping-streams-panic", map[string]any{"part": "E3"}, fmt.Sprintf("streams [%s] || [%s], line order %v: panic %s", seqStr(catalogue[a]), seqStr(catalogue[b]), order, rs[k].panicked), rp)
+							return false
+						}
+						if got := norm(rs[k].out); got != alone[which] {
+							violate("overlapping-streams-differ-from-alone", map[string]any{"part": "E3"}, fmt.Sprintf("streams [%s] || [%s], line order %v: output of stream %d differs from its output when translated alone\nalone:\n%s\noverlapped:\n%s",
+								seqStr(catalogue[a]), seqStr(catalogue[b]), order, k, trunc(alone[which], 1500), trunc(got, 1500)), rp)
+							return false
+						}
+					}
+					res.SetAdd("states", fmt.Sprintf("E3|%d|%d|%v", a, b, order))
+					return true
+				}
+				if ca < na {
+					order = append(order, 0)
+					ok := rec(ca+1, cb)
+					order = order[:len(order)-1]
+					if !ok {
+						return false
+					}
+				}
+				if cb < nb {
+					order = append(order, 1)
+					ok := rec(ca, cb+1)
+					order = order[:len(order)-1]
+					if !ok {
+						return false
+					}
+				}
+				return true
+			}
+			rec(0, 0)
+			if report.Shard == 0 {
+				res.Sample(map[string]any{"part": "E3", "streams": []string{seqStr(catalogue[a]), seqStr(catalogue[b])}, "line_orders": "all"})
+			}
+		}
+	}
+}
+
 func main() {
 	res = report.Init("C13", "model_checking")
 	tr = anthropic.NewTranslator(hutil.QuietLogger(), config.AnthropicTranslatorConfig{Enabled: true, MaxMessageSize: 10 << 20})
@@ -713,7 +908,9 @@ func main() {
 	}
 	e1(depth, true)
 	e1(depth-1, false)
+	e3()
 	e2()
+	res.Info["E3"] = "pairs from a catalogue of 5 (6 thorough) streams translated at the same time by one translator instance, one backend line per turn, every order of the turns; each output must equal the stream's output when translated alone"
 	res.Info["bounds"] = map[string]any{"E1_depth": depth, "E1_alphabet": []string{"text(a)", "text(é🌍)", "tool-start", "tool-start+args", "args fragment", "finish(stop|tool_calls|length)", "usage", "malformed line", "[DONE]", "comment"},
 		"E1_noncontiguous_depth": depth - 1, "E2": "4 texts x 0..2 (4 thorough) tool calls x 3 argument values x all compositions of the text x argument cuts (<=2) x transport chunk {whole,1,2,3,7} x malformed line at every position"}
 	res.Info["rule"] = "every enumerated stream is fed to the real TransformStreamingResponse; states = distinct (block structure, stop reason) outcomes; every prefix of a sequence is itself an enumerated stream"
